@@ -46,6 +46,10 @@ def run(chk: Check, proj: Project) -> None:
     chk.borrow("S7", "fills and deferred children are rendered with the loop state and variable layering of THEIR position: snapshot copy discipline and the position of the captured-variable layer (shared with C03-S6/S9)",
                lambda sub: (C03.s6(sub, proj, w), C03.s9_forloop_copies(sub, proj, w), C03.s12_layer_frame(sub, proj, w)))
     s9(chk, proj, w)
+    from . import generic
+
+    chk.rule("S10", "every function on the render routes that hands its parameters on to the next one (Component.render -> _render -> _render_impl -> _render_with_id, render_to_response -> render, ComponentNode.render -> _render, resolve_fills -> _extract_fill_content ...) hands on EVERY parameter the two signatures share, positional ones in the position of the same name")
+    generic.forwarding(chk, "S10", proj, w.cg, ["component", "components.dynamic", "slots", "component_registry", "node", "provide"], floor=6)
     chk.borrow("S8", "slot resolution, the isolation gate and the fill-context choice read the SAME mode (the component's registry settings) (shared with C03-S10)",
                lambda sub: C03.s10_mode_source(sub, proj, w), only=lambda o: "mode-from-registry" in o.construct)
 
